@@ -21,7 +21,7 @@ ASSUMPTIONS = [
 @st.composite
 def image(draw, tier):
     hi = 24 if tier == "quick" else 40
-    shape = draw(gen.shape2(1, hi))
+    shape = draw(gen.shape2(1, hi, big=0.04, big_pool=gen.BIG + [255, 256, 257, 300]))
     kind = draw(st.sampled_from(["blob", "points", "noise", "const", "int_counts"]))
     k = draw(st.integers(0, 2**31 - 1))
     rng = np.random.default_rng(k)
